@@ -195,6 +195,9 @@ func c20Start() error {
 }
 
 func c20MustStart(t *testing.T) {
+	if os.Getenv("VERIF_C20_WORKERS") == "" && os.Getenv("VERIF_DIR") == "" {
+		t.Skip("C20 needs the per-configuration workers: run it through ./check C20 (or set VERIF_C20_WORKERS, see driver/c20_build.py)")
+	}
 	if err := c20Start(); err != nil {
 		// infrastructure problem, never a violation: the driver treats exit code 3 as inconclusive
 		fmt.Printf("C20-INFRA: %v\n", err)
@@ -280,7 +283,6 @@ func c20Compare(g *gen.G, req *proto.Req, needBLS bool) (proto.Resp, bool) {
 		g.Fatalf("harness: cannot encode request: %v", err)
 	}
 	g.Note("request %s", c20Trunc(string(line), 600))
-	g.Journal("C20 request " + c20Trunc(string(line), 300))
 	ans := c20Round(line, needBLS)
 	dead := 0
 	for _, a := range ans {
@@ -302,13 +304,16 @@ func c20Compare(g *gen.G, req *proto.Req, needBLS bool) (proto.Resp, bool) {
 	if !agree {
 		var sb strings.Builder
 		fmt.Fprintf(&sb, "build configurations disagree on request %s\n", c20Trunc(string(line), 6000))
-		for _, a := range ans {
-			at := c20FirstDiff(a.line, ans[0].line)
-			lo := at - 60
-			if lo < 0 {
-				lo = 0
+		for i, a := range ans {
+			where := ""
+			if at := c20FirstDiff(a.line, ans[0].line); i > 0 && a.line != ans[0].line {
+				lo := at - 60
+				if lo < 0 {
+					lo = 0
+				}
+				where = fmt.Sprintf(" (differs from %s at byte %d: …%s)", ans[0].cfg, at, c20Trunc(a.line[lo:], 160))
 			}
-			fmt.Fprintf(&sb, "  %-8s (first difference to %s at byte %d: …%s) %s\n", a.cfg, ans[0].cfg, at, c20Trunc(a.line[lo:], 160), c20Trunc(a.line, 1500))
+			fmt.Fprintf(&sb, "  %-8s%s %s\n", a.cfg, where, c20Trunc(a.line, 1500))
 		}
 		g.Fatalf("%s", sb.String())
 	}
